@@ -335,6 +335,14 @@ class C03(Property):
                         for nd in (True, False):
                             out.append([{"part": "vforder", "module": m, "flavour": fl, "upright": ou,
                                          "italic": oi, "notdef": nd}])
+        # colour glyphs: the alternates made from colour layers are unencoded helper glyphs
+        for m in ("ufoLib2", "defcon"):
+            for fl in ("TTF", "OTF"):
+                for mapping in ("glyph", "font"):
+                    for base_cp in (None, 0xE000, 0x41):
+                        for comp in (False, True):
+                            out.append([{"part": "color", "module": m, "flavour": fl, "mapping": mapping,
+                                         "base_cp": base_cp, "composite": comp}])
         return _interleave(out)
 
     def ops(self, h, b):
@@ -559,6 +567,51 @@ class C03(Property):
         if seen != {0, 1}:
             viols.append(violation("variable-font-count", feat, observed=sorted(fonts)))
         return Result(viols, ctrs, digest(sig), substates=2, nontrivial=int(stored[0] != stored[1]))
+
+    def _run_color(self, h, b):
+        """Glyph 'b' is a colour glyph whose colour-layer outline is (optionally) a composite over the
+        layer's own 'a', which may declare a code point there.  The character map is that of the
+        default layer, whatever the colour layers declare."""
+        c = h[0]
+        F_ = "com.github.googlei18n.ufo2ft."
+        box = B.box(50, 0, 350, 500)
+        glyphs = {".notdef": {"width": 500}, "a": {"width": 500, "unicodes": [0x41], "contours": [box]},
+                  "b": {"width": 500, "unicodes": [0x42], "contours": [box]}}
+        la = {"width": 500, "contours": [B.box(100, 100, 300, 400)]}
+        if c["base_cp"] is not None:
+            la["unicodes"] = [c["base_cp"]]
+        lb = {"width": 500, "unicodes": [0x42]}
+        if c["composite"]:
+            lb["components"] = [("a", (1, 0, 0, 1, 10, 0))]
+        else:
+            lb["contours"] = [B.box(120, 100, 320, 400)]
+        spec = {"glyphs": glyphs, "order": [".notdef", "a", "b"], "lib": {F_ + "colorPalettes": [[(1.0, 0.0, 0.0, 1.0)]]},
+                "layers": {"color1": {"glyphs": {"a": la, "b": lb}}}}
+        if c["mapping"] == "glyph":
+            glyphs["b"]["lib"] = {F_ + "colorLayerMapping": [("color1", 0)]}
+        else:
+            spec["lib"][F_ + "colorLayerMapping"] = [("color1", 0)]
+        ctrs, viols = {"color_fonts": 1}, []
+        feat = {"seam": "compile", "flavour": c["flavour"], "part": "color", "mapping": c["mapping"],
+                "layer_base_has_codepoint": c["base_cp"] is not None, "composite": c["composite"]}
+        try:
+            tt = compile_reload(lambda: B.build_font(spec, c["module"]), c["flavour"], list(glyphs), ctrs)
+        except Exception as e:  # noqa: BLE001
+            viols.append(violation("colour-font-rejected", dict(feat, type=type(e).__name__), module=c["module"],
+                                   message=str(e)[:300]))
+            return Result(viols, ctrs, "rejected", substates=1, nontrivial=1)
+        want = {0x41: "a", 0x42: "b"}
+        got = {}
+        for st in tt["cmap"].tables:
+            if st.format != 14:
+                if st.cmap != want and len(viols) < MAX_VIOLS:
+                    viols.append(violation("cmap-mapping", dict(feat, subtable=st.format), module=c["module"],
+                                           expected=want, observed=dict(st.cmap)))
+                got = dict(st.cmap)
+        order = tt.getGlyphOrder()
+        if order[:3] != [".notdef", "a", "b"]:
+            viols.append(violation("glyph-order", dict(feat, why="sequence"), module=c["module"], observed=order))
+        return Result(viols, ctrs, digest([order, sorted(got.items())]), substates=1, nontrivial=1)
 
     def _run_skip(self, h, b):
         c = h[0]
